@@ -9,6 +9,7 @@ import (
 	"time"
 
 	rhp3 "go.sia.tech/core/rhp/v3"
+	rhp4 "go.sia.tech/core/rhp/v4"
 	"go.sia.tech/core/types"
 )
 
@@ -176,7 +177,9 @@ func encodeVal(v reflect.Value) (b []byte, err error) {
 	}()
 	var buf bytes.Buffer
 	e := types.NewEncoder(&buf)
-	if et, ok := v.Elem().Interface().(types.EncoderTo); ok {
+	if o, ok := v.Interface().(rhp4.Object); ok && !hasEncoderTo(v) {
+		rhp4.VerifEncode(o, e)
+	} else if et, ok := v.Elem().Interface().(types.EncoderTo); ok {
 		et.EncodeTo(e)
 	} else {
 		v.Interface().(types.EncoderTo).EncodeTo(e)
@@ -189,6 +192,9 @@ func encodeVal(v reflect.Value) (b []byte, err error) {
 func decodeBytes(typ reflect.Type, b []byte) (w reflect.Value, derr error, panicked string) {
 	w = reflect.New(typ)
 	df, ok := w.Interface().(types.DecoderFrom)
+	if o, isObj := w.Interface().(rhp4.Object); isObj && !ok {
+		df, ok = types.DecoderFunc(func(d *types.Decoder) { rhp4.VerifDecode(o, d) }), true
+	}
 	if !ok {
 		return w, fmt.Errorf("no decoder"), ""
 	}
@@ -202,6 +208,31 @@ func decodeBytes(typ reflect.Type, b []byte) (w reflect.Value, derr error, panic
 		df.DecodeFrom(d)
 	}()
 	return w, d.Err(), panicked
+}
+
+func hasEncoderTo(v reflect.Value) bool {
+	if _, ok := v.Interface().(types.EncoderTo); ok {
+		return true
+	}
+	_, ok := v.Elem().Interface().(types.EncoderTo)
+	return ok
+}
+
+type wireType struct {
+	name string
+	typ  reflect.Type
+}
+
+// every wire type: the exported EncodeTo/DecodeFrom pairs and the rhp/v4 RPC objects (through the verif hooks)
+func allWireTypes() []wireType {
+	var out []wireType
+	for _, t := range genAllTypes {
+		out = append(out, wireType{t.name, t.typ})
+	}
+	for _, o := range genRhp4Objects {
+		out = append(out, wireType{o.name, reflect.TypeOf(o.mk()).Elem()})
+	}
+	return out
 }
 
 type genSchema struct {
@@ -288,7 +319,7 @@ func runC11(r *Run) {
 	rec := recodable()
 	nper := r.pick(60, 2500)
 	nrec := 0
-	for _, tt := range genAllTypes {
+	for _, tt := range allWireTypes() {
 		if rec[tt.name] {
 			nrec++
 		}
@@ -357,7 +388,7 @@ func runC11(r *Run) {
 			}
 		}
 	}
-	r.Notes = append(r.Notes, fmt.Sprintf("%d wire types with EncodeTo/DecodeFrom, %d recomputed by the model (regular shape closure incl. recognised V1Currency, V1SiafundOutput, SpendPolicy)", len(genAllTypes), nrec))
+	r.Notes = append(r.Notes, fmt.Sprintf("%d wire types (exported EncodeTo/DecodeFrom pairs and rhp/v4 RPC objects), %d recomputed by the model (regular shape closure incl. recognised V1Currency, V1SiafundOutput, SpendPolicy)", len(allWireTypes()), nrec))
 	_ = rhp3.RPCError{}
 }
 
@@ -369,7 +400,7 @@ func runC10(r *Run) {
 	}
 	rec := recodable()
 	nper := r.pick(40, 1500)
-	for _, tt := range genAllTypes {
+	for _, tt := range allWireTypes() {
 		for iter := 0; iter < nper; iter++ {
 			var b []byte
 			if needsState[tt.name] && iter%4 != 0 {
